@@ -78,6 +78,13 @@ def run(an: Analysis, rep):
     rep.run(r035, an, rep)
     rep.run(r036, an, rep)
     rep.run(r037, an, rep)
+    from .common import SharedRules
+    from . import c02, c04, c10
+    rep.run(c10.format_rules, an, SharedRules(rep, "R03.L", "line-table format constants (shared with C10's R10.*): 'each instruction carries the given line'"))
+    rep.run(c02.jump_rules, an, SharedRules(rep, "R03.J", "jump operands are measured as CPython measures them (shared with C02's R02.3/R02.4): 'every jump lands on the first instruction of its target block'"))
+    sh = SharedRules(rep, "R03.A", "signature encoding: co_varnames layout, counts and flags (shared with C04's R04.3/R04.4): 'signature ... as described'")
+    rep.run(c04.r043, an, sh)
+    rep.run(c04.r044, an, sh)
     rep.stats.update(an.stats([an.interp("to_code", V)[0] for V in VERSIONS]))
     rep.assumptions += ["`assert` is accepted as a guard form (the repository's own convention); it vanishes under python -O"]
 
@@ -389,6 +396,11 @@ def r036(an, rep):
 
 
 # ----------------------------------------------------------------------------- R03.7
+def _conj(gs):
+    from .encode_model import conj
+    return conj(gs)
+
+
 def r037(an, rep):
     sf = find_size_fn(an)
     it, _ = an.interp("to_code")
@@ -435,6 +447,64 @@ def r037(an, rep):
         ok = cmpsize
         why = f"`{flag} = True` exactly when the size of the new jump operand differs from the size used for the offsets" if ok else \
             f"`{flag} = True` is not guarded by a comparison of the old and the new operand size: the loop may stop before sizes are stable (jumps land mid-instruction) or never stop"
+        if ok:
+            # exactness: the flag must be raised for EVERY jump whose size changed (unless its size is pinned by an override), whatever its kind or direction.
+            # Evaluate the guard over the finite domain {override set?} x {old size} x {new operand} x {every other name / attribute in it: two values each}.
+            import itertools
+            from sa.feval import callable_for_feval
+            # the innermost guard only (the enclosing `isinstance(arg, Jump)` selects the instructions the loop is about)
+            guard = inline_locals(g.node, _conj([x for x in gs if not any(isinstance(c, ast.Call) and isinstance(c.func, ast.Name) and c.func.id == "isinstance" for c in ast.walk(x[0]))]), keep_calls=True)
+            class _Sub(ast.NodeTransformer):  # a subscript expression is an opaque quantity of its own
+                def __init__(self):
+                    self.n = {}
+
+                def visit_Subscript(self, n):
+                    key = ast.dump(n)
+                    self.n.setdefault(key, f"subscript_{len(self.n)}")
+                    return ast.copy_location(ast.Name(self.n[key], ast.Load()), n)
+            guard = ast.fix_missing_locations(_Sub().visit(guard))
+            size = callable_for_feval(lambda v: eval_decision_tree(sf, {sf.params[0]: v}))
+            leaves = sorted({norm_src(a) for a in ast.walk(guard) if isinstance(a, ast.Attribute)} |
+                            {n.id for n in ast.walk(guard) if isinstance(n, ast.Name) and n.id != sf.name})
+            leaves = [l for l in leaves if not any(m != l and m.startswith(l + ".") for m in leaves)]
+            # which leaf is the override, which the old size, which the new operand?  by role: the override is the attribute ending in the
+            # Instruction field typed Optional[int]; the argument of the size function is the new operand; the name compared with it is the old size
+            newop = oldsz = ovr = None
+            for c in ast.walk(guard):
+                if isinstance(c, ast.Compare) and isinstance(c.ops[0], ast.NotEq):
+                    for side, other in ((c.left, c.comparators[0]), (c.comparators[0], c.left)):
+                        if isinstance(side, ast.Call) and isinstance(side.func, ast.Name) and side.func.id == sf.name:
+                            newop = norm_src(side.args[0])
+                            oldsz = norm_src(other)
+            ins = an.prog.cls("code_data::Instruction")
+            ovf = [f.name for f in ins.fields if f.private and "int" in ast.dump(f.annotation)]
+            for l in leaves:
+                if any(l.endswith("." + f) for f in ovf):
+                    ovr = l
+            if newop in leaves and oldsz in leaves and ovr:
+                others = [l for l in leaves if l not in (newop, oldsz, ovr)]
+                bad = []
+                for ov, old, new in itertools.product((None, 2), (1, 2), (5, 300)):
+                    for combo in itertools.product((0, 7), repeat=len(others)):
+                        for flip in (False, True):
+                            env = {sf.name: size, ovr: ov, oldsz: old, newop: new}
+                            for l, v in zip(others, combo):
+                                env[l] = bool(v) if flip else v
+                            try:
+                                got = bool(feval(guard, env))
+                            except (FevalError, TypeError, KeyError) as ex:
+                                raise AnalysisError(f"{g.qual}: relaxation guard `{norm_src(guard)}` not evaluable: {ex}")
+                            want = (not ov) and old != size(new)
+                            if got != want:
+                                bad.append((dict(zip(others, combo)), ov, old, new, got))
+                if bad:
+                    ex = bad[0]
+                    ok = False
+                    why = (f"`{flag} = True` is guarded by `{norm_src(guard)}`, which also depends on {others}: with {ex[0]} (override={ex[1]}, old size {ex[2]}, new operand {ex[3]}) "
+                           f"a jump whose size changed does {'not ' if not ex[4] else ''}trigger a new layout pass - offsets computed for the short layout are emitted next to a widened jump, "
+                           f"so other jumps land in the middle of an instruction (visible once normalize() has stripped the width overrides)")
+                else:
+                    why += f" (guard `{norm_src(guard)}` evaluated on every combination of override / sizes" + (f" / {others}" if others else "") + ")"
     rep.add("R03.7", f"{g.qual}::changed flag", ok, loc(g.module, raises[0] if raises else wl), why)
     # offsets recomputed before operands within each iteration: two top-level for loops in the while body, the first assigns block offsets
     fors = [st for st in wl.body if isinstance(st, ast.For)]
